@@ -60,13 +60,21 @@ class Geometry2d:
             self.traces = list(setup_param)
 
 
+def check_range_length(data, offset, length):
+    """A range read which comes back short (truncated file, failed download) must never be taken for data"""
+    if len(data) != length:
+        raise IOError(f"Requested bytes [{offset}, {offset + length}) but received {len(data)} bytes. "
+                      "Is the file truncated?")
+    return data
+
+
 def read_range_file(file, offset, length):
     file.seek(offset)
-    return file.read(length)
+    return check_range_length(file.read(length), offset, length)
 
 
 def read_range_blob(file, offset, length):
-    return file.download_blob(offset=offset, length=length).readall()
+    return check_range_length(file.download_blob(offset=offset, length=length).readall(), offset, length)
 
 
 def generate_fake_seismic(n_ilines, n_xlines, n_samples, min_iline=0, min_xline=0):
